@@ -1,6 +1,7 @@
 from numbers import Number
 from itertools import product
 from qbee import grammar
+from qbee.expr import Expr
 from qbee.evalctx import EvaluationContext, Routine, EvalError
 from .memlayout import (
     get_global_var_idx, get_local_var_idx, get_type_size
@@ -132,6 +133,20 @@ class QvmEval(EvaluationContext):
         self.global_consts = global_consts
         self.global_vars = global_vars
         self.find_routine_func = find_routine_func
+
+    def get_node_routine(self, node):
+        # an expression typed at the debugger prompt is not part of the
+        # program tree: its names are those of the routine the machine
+        # is currently in
+        root = node
+        while root.parent is not None:
+            root = root.parent
+        if isinstance(root, Expr):
+            frame = self.cpu.cur_frame
+            if frame is None:
+                return self.main_routine
+            return self.find_routine_func(frame.code_start)
+        return super().get_node_routine(node)
 
     def eval_lvalue(self, lvalue):
         frame = self.cpu.cur_frame
